@@ -168,6 +168,18 @@ def m_visit_children_with(it, ctx, a, m, f):
     return []
 
 
+@model(r'^<(.*) as VisitMutWith<VueJsxTransformVisitor<C>>>::visit_mut_with$')
+def m_visit_with(it, ctx, a, m, f):
+    """node.visit_mut_with(visitor): dispatches to the visitor's method for that node type (override or generic)"""
+    ty = m.group(1)
+    tr = traversal(it)
+    node = a[0]; vis = a[1]
+    if not isinstance(node, Ref):
+        raise Unsupported('visit_mut_with on a non-reference')
+    tr.visit_slot(ctx, vis, node.c, node.k, ty)
+    return []
+
+
 # the generic `visit_mut_children_with=identity` stub in models.py must not shadow the model above
 M._MODELS[:] = [(rx, fn) for rx, fn in M._MODELS if fn.__name__ != 'm_visit_children']
 M._CACHE.clear()
